@@ -13,13 +13,15 @@ from . import pgwire as W
 from .client import md5_password
 from .world import World, simple_pool, REPO
 
-STARTUPS = ['pool_md5', 'pool_md5_authquery', 'pool_trust', 'unknown_db', 'unknown_user', 'admin_ok_user', 'admin_wrong_user', 'no_user']
+STARTUPS = ['pool_md5', 'pool_md5_authquery', 'pool_md5_authquery2', 'pool_trust', 'unknown_db', 'unknown_user', 'admin_ok_user',
+            'admin_wrong_user', 'no_user']
 RESPONSES = ['correct', 'wrong_password', 'replayed', 'other_users_password', 'truncated', 'empty', 'wrong_message_type', 'none',
              'zero_length_body', 'constant_md5', 'correct_prefix', 'correct_without_nul', 'correct_with_suffix', 'previous_password']
 PREVIOUS = {'secret1': 'secret0'}     # password of u_md5 before the RELOAD of rotated worlds
 CREDS = {
     'pool_md5': ('db', 'u_md5', 'secret1'),
     'pool_md5_authquery': ('dbq', 'u_aq', 'aqsecret'),
+    'pool_md5_authquery2': ('dbq', 'u_aq2', 'aqsecret2'),      # a second user of the same auth_query pool section
     'pool_trust': ('db', 'u_trust', None),
     'unknown_db': ('nodb', 'u_md5', 'secret1'),
     'unknown_user': ('db', 'nobody', 'secret1'),
@@ -111,7 +113,7 @@ def attempt(w, idx, startup, response, tls, rng):
         elif response == 'previous_password':
             out = W.Password(md5_password(u, PREVIOUS.get(pw, 'secret0'), salt))
         elif response == 'other_users_password':
-            other = 'adminpw' if pw != 'adminpw' else 'secret1'
+            other = {'aqsecret': 'aqsecret2', 'aqsecret2': 'aqsecret', 'adminpw': 'secret1'}.get(pw, 'adminpw')
             out = W.Password(md5_password(u, other, salt))
         elif response == 'truncated':
             full = W.Password(md5_password(u, pw, salt))
@@ -185,10 +187,12 @@ def run_batch(item):
         b1 = w.backend('p0')
         b2 = w.backend('q0')
         aq_hash = 'md5' + hashlib.md5(b'aqsecretu_aq').hexdigest()
-        b2.auth_rows = [('u_aq', aq_hash)]
+        aq_hash2 = 'md5' + hashlib.md5(b'aqsecret2u_aq2').hexdigest()
+        b2.auth_rows = [('u_aq', aq_hash), ('u_aq2', aq_hash2)]
         db = simple_pool([['127.0.0.1', b1.port, 'primary']], pool_size=2, user={'username': 'u_md5', 'password': 'secret1', 'auth_type': None})
         db['users']['1'] = {'username': 'u_trust', 'password': 'x', 'auth_type': 'trust', 'pool_size': 2}
         dbq = simple_pool([['127.0.0.1', b2.port, 'primary']], pool_size=2, user={'username': 'u_aq', 'password': None, 'auth_type': None})
+        dbq['users']['1'] = {'username': 'u_aq2', 'pool_size': 2}
         dbq.update({'auth_query': "SELECT usename, passwd FROM pg_shadow WHERE usename='$1'", 'auth_query_user': 'aq_user',
                     'auth_query_password': 'aq_pw'})
         if item.get('rotated'):
@@ -230,7 +234,7 @@ def check_c09(prop, tier, seed):
     v.add_mc('mc:design', res)
     if res.rc != 0:
         v.tool_error('Auth design rc=%d %s' % (res.rc, res.errors()[:2]))
-    for d in ('ok_before_check', 'admin_via_pool', 'stale_secret'):
+    for d in ('ok_before_check', 'admin_via_pool', 'stale_secret', 'secret_shared_in_pool'):
         r2 = tlc.run_tlc('Auth', 'MC_Auth_dev_%s.cfg' % d, workers=2)
         v.add_mc('mc:dev:' + d, r2)
         if not r2.invariant_violated:
@@ -261,7 +265,7 @@ def check_c09(prop, tier, seed):
         recs += r['recs']
     for r in recs:
         v.nontrivial_case('%s/%s/%s' % (r['startup'], r['response'], r['tls']))
-        if r['startup'] in ('pool_md5', 'pool_md5_authquery', 'admin_ok_user') and r['response'] == 'correct' and not r['ready']:
+        if r['startup'] in ('pool_md5', 'pool_md5_authquery', 'pool_md5_authquery2', 'admin_ok_user') and r['response'] == 'correct' and not r['ready']:
             refused_valid += 1
         if r['startup'] == 'pool_trust' and not r['ready']:
             refused_valid += 1
